@@ -2,6 +2,8 @@
 
 package core
 
+import "unicode/utf8"
+
 // C18 — cluster job scripts reproduce values exactly.
 //
 // Oracle: POSIX sh double-quote semantics (XCU 2.2.3): inside "..." only
@@ -64,11 +66,31 @@ func hasByte(s string, c byte) bool {
 	return r
 }
 
-// knownC18 excludes the inputs of the recorded findings.
-func c18Exclusions(s string) {
-	if verifKnown("C18-backquote") {
-		verifAssume(!hasByte(s, '`'))
+// octalExpand is what the recorded finding C18-invalid-utf8 amounts to: each
+// byte that is not part of a valid UTF-8 sequence comes back from the shell
+// as the four characters \ooo instead of as itself.
+func octalExpand(s string) string {
+	var out []byte
+	for len(s) > 0 {
+		r, w := utf8.DecodeRuneInString(s)
+		if r == utf8.RuneError && w == 1 {
+			out = append(out, '\\', '0'+s[0]>>6, '0'+((s[0]>>3)&7), '0'+(s[0]&7))
+		} else {
+			out = append(out, s[:w]...)
+		}
+		s = s[w:]
 	}
+	return string(out)
+}
+
+// c18Want is the string sh must recover.  With the known finding enabled the
+// expectation is relaxed for exactly the bytes the finding names, so that any
+// other deviation is still reported.
+func c18Want(s string) string {
+	if verifKnown("C18-invalid-utf8") {
+		return octalExpand(s)
+	}
+	return s
 }
 
 // H_C18_quote: for every string s of n bytes without NUL, a POSIX shell
@@ -76,13 +98,12 @@ func c18Exclusions(s string) {
 func H_C18_quote(n int) {
 	s := verifString("s", n)
 	verifAssume(!hasNul(s))
-	c18Exclusions(s)
 	q := appendShellSafeQuote(nil, s)
 	out, ok := posixDequote(q)
 	verifCover("quoted")
 	verifAssert(ok, "quoted word is one closed double-quoted word without live $ or `")
 	if ok {
-		verifAssert(string(out) == s, "sh recovers the original string")
+		verifAssert(string(out) == c18Want(s), "sh recovers the original string")
 	}
 }
 
@@ -93,4 +114,100 @@ func H_C18_shellSafeQuote(n int) {
 	b := string(appendShellSafeQuote(nil, s))
 	verifCover("wrapped")
 	verifAssert(a == b, "shellSafeQuote equals appendShellSafeQuote")
+}
+
+// shWords splits a script fragment of the shape formatArgs produces into
+// shell words: words are separated by blanks or backslash-newline; a word is
+// a run of unquoted name characters and double-quoted segments.
+func shWords(b []byte) (words [][]byte, ok bool) {
+	i, n := 0, len(b)
+	for {
+		// separators
+		for i < n {
+			if b[i] == ' ' {
+				i++
+			} else if b[i] == '\\' && i+1 < n && b[i+1] == '\n' {
+				i += 2
+			} else {
+				break
+			}
+		}
+		if i >= n {
+			return words, true
+		}
+		var w []byte
+		for i < n && b[i] != ' ' && !(b[i] == '\\' && i+1 < n && b[i+1] == '\n') {
+			c := b[i]
+			if c == '"' {
+				// find the closing quote honouring backslash escapes
+				j := i + 1
+				for j < n && b[j] != '"' {
+					if b[j] == '\\' {
+						j++
+					}
+					j++
+				}
+				if j >= n {
+					return nil, false
+				}
+				seg, segOK := posixDequote(b[i : j+1])
+				if !segOK {
+					return nil, false
+				}
+				w = append(w, seg...)
+				i = j + 1
+			} else if c >= 'A' && c <= 'Z' || c >= 'a' && c <= 'z' || c >= '0' && c <= '9' || c == '_' || c == '=' {
+				w = append(w, c)
+				i++
+			} else {
+				return nil, false // an unquoted shell metacharacter
+			}
+		}
+		words = append(words, w)
+	}
+}
+
+// H_C18_formatArgs: the argument/environment block of a job script yields
+// exactly the assignment and argv it was built from.
+func H_C18_formatArgs(nv, nc, na int) {
+	v := verifString("v", nv)
+	cmd := verifString("cmd", nc)
+	arg := verifString("arg", na)
+	verifAssume(!hasNul(v))
+	verifAssume(!hasNul(cmd))
+	verifAssume(!hasNul(arg))
+	out := formatArgs(map[string]string{"MRO_K1": v}, cmd, []string{arg})
+	words, ok := shWords([]byte(out))
+	verifCover("formatted")
+	verifAssert(ok, "formatArgs output splits into shell words without live metacharacters")
+	if ok {
+		verifAssert(len(words) == 3, "exactly one assignment, the command and one argument")
+		if len(words) == 3 {
+			verifAssert(string(words[0]) == "MRO_K1="+c18Want(v), "environment value recovered")
+			verifAssert(string(words[1]) == c18Want(cmd), "command recovered")
+			verifAssert(string(words[2]) == c18Want(arg), "argument recovered")
+		}
+	}
+}
+
+// H_C18_formatArgsOrder: two environment entries come out as two separate
+// assignments, each with its own value, whatever the map iteration order.
+func H_C18_formatArgsOrder(n int) {
+	v1 := verifString("v1", n)
+	v2 := verifString("v2", n)
+	verifAssume(!hasNul(v1))
+	verifAssume(!hasNul(v2))
+	verifNondetMapOrder(true)
+	out := formatArgs(map[string]string{"A": v1, "B": v2}, "c", nil)
+	words, ok := shWords([]byte(out))
+	verifCover("formatted2")
+	verifAssert(ok, "two-entry environment block splits into shell words")
+	if ok {
+		verifAssert(len(words) == 3, "two assignments and the command")
+		if len(words) == 3 {
+			verifAssert(string(words[0]) == "A="+c18Want(v1), "first assignment (sorted) recovered")
+			verifAssert(string(words[1]) == "B="+c18Want(v2), "second assignment recovered")
+			verifAssert(string(words[2]) == "c", "command recovered after environment")
+		}
+	}
 }
